@@ -36,6 +36,8 @@ def opt_sets():
         {"format": "mb", "p_sub": 0.3}, {"format": "dsse", "p_sub": 0.3},
         {"params": True, "p_sub": 0.2, "vary_keys": False, "link_variants": ["honest"] * 4 + ["edited", "sig_keyid"]},
         {"boundary": True, "p_sub": 0.2},
+        # per-link checks that must not depend on the container: step-name binding, file-name key id
+        {"link_variants": ["honest"] * 3 + ["replayed_name", "other_keyid_name"], "p_sub": 0.05, "vary_keys": False},
     ]
 
 
@@ -247,21 +249,10 @@ def replay(ctx, obj):
 
 
 def _replay_one(ctx, sub, outs):
-    import io
     import contextlib
-    req = sub["replay"]["request"]
-    wd = os.path.join(ctx.work, "sc")
-    os.makedirs(wd, exist_ok=True)
-    scen = {"root": req["root"], "dir": req["dir"], "keys": req["keys"], "params": req["params"],
-            "now_us": req["now_us"], "tags": sub["replay"].get("tags", []), "logpath": os.path.join(wd, "insp.log")}
-    import re
-    m = re.search(r">> (\S+insp\.log)", json.dumps(req))
-    if m:
-        scen = json.loads(json.dumps(scen).replace(m.group(1), os.path.join(wd, "insp.log")))
-    o, _ = vscen.run_impl(scen, wd)
-    outs.append(o[0])
+    import io
     buf = io.StringIO()
     with contextlib.redirect_stdout(buf):
-        rc = vcore.replay(ctx, "C14", sub)
+        rc = vcore.replay(ctx, "C14", sub, outs=outs)
     print(buf.getvalue().replace("VIOLATION", "model-disagreement"), end="")
     return rc
